@@ -239,10 +239,35 @@ struct static_array  // NOLINT(fuchsia-multiple-inheritance) : multiple inherita
 		);
 	}
 
-	constexpr static_array(decay_type&& other, allocator_type const& alloc) noexcept
-	: array_alloc{alloc}, ref(std::exchange(other.base_, nullptr), other.extensions()) {
-		std::move(other).layout_mutable() = typename static_array::layout_type(typename static_array::extensions_type{});  // = {};  careful! this is the place where layout can become invalid
+	constexpr static_array(decay_type&& other, allocator_type const& alloc) noexcept(multi::allocator_traits<allocator_type>::is_always_equal::value)
+	: array_alloc{alloc}, ref(nullptr, typename static_array::extensions_type{}) {
+		if(multi::allocator_traits<allocator_type>::is_always_equal::value || this->alloc() == other.alloc()) {
+			this->base_            = std::exchange(other.base_, nullptr);
+			this->layout_mutable() = other.layout();
+			std::move(other).layout_mutable() = typename static_array::layout_type(typename static_array::extensions_type{});  // = {};  careful! this is the place where layout can become invalid
+		} else {
+			move_elements_from_unequal_(other);
+		}
 	}
+
+ protected:
+	// precondition: *this owns no storage. Storage of an unequal allocator cannot be adopted:
+	// the elements are moved into storage obtained from this array's own allocator and `other` is emptied.
+	void move_elements_from_unequal_(decay_type& other) {
+		auto const count    = static_cast<typename multi::allocator_traits<allocator_type>::size_type>(other.num_elements());
+		auto const new_base = array_alloc::allocate(count);
+		try {
+			array_alloc::uninitialized_move_n(other.data_elements(), other.num_elements(), new_base);
+		} catch(...) {
+			if(count != 0) { multi::allocator_traits<allocator_type>::deallocate(this->alloc(), new_base, count); }
+			throw;
+		}
+		this->base_            = new_base;
+		this->layout_mutable() = other.layout();
+		other.clear();
+	}
+
+ public:
 
 	constexpr explicit static_array(decay_type&& other) noexcept
 	: static_array(std::move(other), allocator_type{}) {}  // 6b
@@ -1270,7 +1295,7 @@ struct array : static_array<T, D, Alloc> {
 	friend BOOST_MULTI_HD constexpr auto move(array& self) -> decltype(auto) { return std::move(self); }
 	friend BOOST_MULTI_HD constexpr auto move(array&& self) -> decltype(auto) { return std::move(self); }
 
-	array(array&& other, typename array::allocator_type const& alloc) noexcept : static_array<T, D, Alloc>{std::move(other), alloc} {
+	array(array&& other, typename array::allocator_type const& alloc) noexcept(multi::allocator_traits<typename array::allocator_type>::is_always_equal::value) : static_array<T, D, Alloc>{std::move(other), alloc} {
 		assert(this->stride() != 0);
 	}
 	array(array&& other) noexcept : array{std::move(other), other.get_allocator()} {
@@ -1293,11 +1318,23 @@ struct array : static_array<T, D, Alloc> {
 	}
 
 #ifndef NOEXCEPT_ASSIGNMENT
-	auto operator=(array&& other) noexcept -> array& {
+	auto operator=(array&& other) noexcept(
+		   multi::allocator_traits<typename array::allocator_type>::propagate_on_container_move_assignment::value
+		|| multi::allocator_traits<typename array::allocator_type>::is_always_equal::value
+	) -> array& {
 		if(this == std::addressof(other)) {
 			return *this;
 		}
 		clear();
+		if constexpr(
+			   !multi::allocator_traits<typename array::allocator_type>::propagate_on_container_move_assignment::value
+			&& !multi::allocator_traits<typename array::allocator_type>::is_always_equal::value
+		) {
+			if(this->alloc() != other.alloc()) {
+				this->move_elements_from_unequal_(other);
+				return *this;
+			}
+		}
 		this->base_ = other.base_;
 		if constexpr(multi::allocator_traits<typename array::allocator_type>::propagate_on_container_move_assignment::value) {
 			this->alloc() = std::move(other.alloc());
